@@ -1181,3 +1181,13 @@ func cmAppendFunc(fs []*kit.Func, f *kit.Func) []*kit.Func {
 	}
 	return append(fs, f)
 }
+
+// cmTagCase evaluates one case of a tagged switch (`switch len(x) { case 3: … }`)
+// as the condition `tag == case` through the flow's own atoms and folds.
+func cmTagCase(st *kit.Std, br kit.Branch, s kit.S) (t, f []kit.S, handled bool) {
+	if br.Kind != kit.BrCase || br.Tag == nil || br.Case == nil {
+		return nil, nil, false
+	}
+	t, f = st.Eval.Eval(&ast.BinaryExpr{X: br.Tag, Op: token.EQL, Y: br.Case}, s)
+	return t, f, true
+}
